@@ -687,6 +687,274 @@ def history_expectations(g, lines, answers):
     return fails
 
 
+# ---------------------------------------------------------------- SQL of the real MySQL adapter
+# The histories above run on memverif.  The statements the REAL adapter sends for FileDeleteUnused /
+# FileLinkAttachments / FileFinishUpload are recorded by harness/overlay/server/db/mysql/zz_verif_c16_test.go
+# and executed here on sqlite over enumerated small tables; the GC and link laws are evaluated on the result,
+# and the result is compared with the store contract of the model (gc_candidate / link_single / publish).
+SQL_SCHEMA = """
+CREATE TABLE users(id INTEGER PRIMARY KEY);
+CREATE TABLE topics(name TEXT PRIMARY KEY);
+CREATE TABLE messages(id INTEGER PRIMARY KEY);
+CREATE TABLE fileuploads(id INTEGER NOT NULL PRIMARY KEY, createdat TEXT NOT NULL, updatedat TEXT NOT NULL, userid INTEGER,
+  status INT NOT NULL, mimetype TEXT NOT NULL, size INTEGER NOT NULL, location TEXT NOT NULL);
+CREATE TABLE filemsglinks(id INTEGER PRIMARY KEY AUTOINCREMENT, createdat TEXT NOT NULL,
+  fileid INTEGER NOT NULL REFERENCES fileuploads(id) ON DELETE CASCADE,
+  msgid INTEGER REFERENCES messages(id) ON DELETE CASCADE,
+  topic TEXT REFERENCES topics(name) ON DELETE CASCADE,
+  userid INTEGER REFERENCES users(id) ON DELETE CASCADE);
+"""
+T_OLD, T_BOUND, T_NEW = "2026-01-01T00:00:00.000Z", "2026-01-01T12:00:00.000Z", "2026-01-02T00:00:00.000Z"
+SQL_TOPICS = ["grpAAAAAAAAAAA", "grpBBBBBBBBBBB"]
+SQL_MSGS = [11, 12]
+SQL_UIDS = [7001, 7002]          # plain Uid values; the adapter stores store.DecodeUid(uid)
+
+
+def build_sql_driver(ctx):
+    ov = {}
+    base = os.path.join(vlib.ROOT, "harness", "overlay")
+    for dp, _, fs in os.walk(base):
+        for f in fs:
+            if f.endswith(".go"):
+                src = os.path.join(dp, f)
+                ov[os.path.join(vlib.REPO, os.path.relpath(src, base))] = src
+    ovp = os.path.join(vlib.BUILD, "overlay_c16sql.json")
+    json.dump({"Replace": ov}, open(ovp, "w"), indent=1)
+    out_bin = os.path.join(vlib.BUILD, "mysqldrv_c16.test")
+    rc, out = vlib.sh("timeout 1500 go test -c -o %s -vet=off -tags 'mysql verif' -overlay %s ./db/mysql/" % (out_bin, ovp),
+                      cwd=os.path.join(vlib.REPO, "server"), env=vlib.GOENV)
+    open(os.path.join(ctx.work, "mysqldrv_c16_build.log"), "w").write(out)
+    return rc == 0, out
+
+
+def run_sql_driver(ctx, calls, tag):
+    fin = os.path.join(ctx.work, "sql_%s_in.jsonl" % tag)
+    fout = os.path.join(ctx.work, "sql_%s_out.jsonl" % tag)
+    open(fin, "w").write("".join(json.dumps(c) + "\n" for c in calls))
+    if os.path.exists(fout):
+        os.remove(fout)
+    env = dict(vlib.GOENV, VERIF_IN=fin, VERIF_OUT=fout)
+    p = subprocess.run([os.path.join(vlib.BUILD, "mysqldrv_c16.test"), "-test.run", "^TestVerifC16Sql$", "-test.count=1"],
+                       stdout=subprocess.PIPE, stderr=subprocess.STDOUT, text=True, timeout=1200, env=env,
+                       cwd=os.path.join(vlib.REPO, "server", "db", "mysql"))
+    out = [json.loads(l) for l in open(fout)] if os.path.exists(fout) else []
+    return p.returncode, out, p.stdout
+
+
+def sql_args(args):
+    return [a["time"] if isinstance(a, dict) else a for a in (args or [])]
+
+
+class SqlDb:
+    """the tables of one case: files = [(id, updatedat, status, location)], links = [(fileid, kind, target)]"""
+
+    def __init__(self):
+        import sqlite3
+        self.c = sqlite3.connect(":memory:", isolation_level=None)
+        self.c.executescript(SQL_SCHEMA)
+        self.c.execute("PRAGMA foreign_keys=ON")
+
+    def load(self, files, links, users):
+        c = self.c
+        for tb in ("filemsglinks", "fileuploads", "messages", "topics", "users"):
+            c.execute("DELETE FROM " + tb)
+        c.executemany("INSERT INTO users(id) VALUES (?)", [(u,) for u in users])
+        c.executemany("INSERT INTO topics(name) VALUES (?)", [(x,) for x in SQL_TOPICS])
+        c.executemany("INSERT INTO messages(id) VALUES (?)", [(m,) for m in SQL_MSGS])
+        c.executemany("INSERT INTO fileuploads(id,createdat,updatedat,userid,status,mimetype,size,location) VALUES (?,?,?,?,?,?,?,?)",
+                      [(i, T_OLD, upd, 1, st, "x/y", 1, loc) for i, upd, st, loc in files])
+        col = {"msg": "msgid", "topic": "topic", "user": "userid"}
+        for f, kind, tg in links:
+            c.execute("INSERT INTO filemsglinks(createdat,fileid,%s) VALUES (?,?,?)" % col[kind], (T_OLD, f, tg))
+
+    def files(self):
+        return sorted(r[0] for r in self.c.execute("SELECT id FROM fileuploads"))
+
+    def links(self):
+        res = []
+        for f, m, tp, u in self.c.execute("SELECT fileid,msgid,topic,userid FROM filemsglinks"):
+            res.append((f, "msg", m) if m is not None else (f, "topic", tp) if tp is not None else (f, "user", u))
+        return sorted(res, key=repr)
+
+    def run_tx(self, stmts):
+        """the recorded statements in order; an error rolls the transaction back (what the adapter's
+        deferred tx.Rollback does).  Returns (rows of the last SELECT, error text or None)"""
+        rows, intx = None, False
+        try:
+            for st in stmts:
+                k = st["kind"]
+                if k == "BEGIN":
+                    self.c.execute("BEGIN")
+                    intx = True
+                elif k == "COMMIT":
+                    self.c.execute("COMMIT")
+                    intx = False
+                elif k == "ROLLBACK":
+                    if intx:
+                        self.c.execute("ROLLBACK")
+                    intx = False
+                elif k == "QUERY":
+                    rows = self.c.execute(st["q"], sql_args(st.get("args"))).fetchall()
+                else:
+                    self.c.execute(st["q"], sql_args(st.get("args")))
+        except Exception as e:          # sqlite3.Error
+            if intx:
+                self.c.execute("ROLLBACK")
+            return rows, "%s: %s" % (type(e).__name__, e)
+        return rows, None
+
+
+def sql_tables(ctx, ids):
+    """enumerated file / link tables: every file old or new, with one of several link sets"""
+    import itertools
+    linksets = [(), (("msg", SQL_MSGS[0]),), (("topic", SQL_TOPICS[0]),), (("user", "U0"),),
+                (("msg", SQL_MSGS[0]), ("msg", SQL_MSGS[1])), (("msg", SQL_MSGS[1]), ("user", "U1")), (("topic", SQL_TOPICS[1]), ("user", "U0"))]
+    variants = [(upd, ls) for upd in (T_OLD, T_NEW) for ls in linksets]
+    tables = [([], [])]
+    for n in (1, 2, 3):
+        combos = list(itertools.product(variants, repeat=n))
+        if n == 3 and ctx.tier == "quick":
+            combos = ctx.rng.sample(combos, 250)
+        for combo in combos:
+            files, links = [], []
+            for i, (upd, ls) in enumerate(combo):
+                files.append((ids[i], upd, 0 if (i + len(ls)) % 3 == 0 else 1, "" if (i == 2 and upd == T_OLD) else "loc%d" % i))
+                links += [(ids[i], kind, tg) for kind, tg in ls]
+            tables.append((files, links))
+    return tables
+
+
+def sql_tie(ctx):
+    """returns (law failures, correspondence differences, coverage dict); each failure carries the tables and
+    the statements as its concrete input"""
+    fails, diffs = [], []
+    ok, out = build_sql_driver(ctx)
+    if not ok:
+        return fails, [("sql-driver-build", "recording driver for the MySQL adapter no longer builds: " + out[-800:], {})], {}
+    combos = [(older, lim) for older in ("", T_BOUND) for lim in (0, 1, 2)]
+    calls = [{"op": "ids", "n": 4}] + [{"op": "gc", "older": o, "limit": l, "rows": []} for o, l in combos]
+    # link calls: files 0 and 1 exist, 2 does not
+    link_calls = []
+    for kind, tg in (("msg", SQL_MSGS[0]), ("topic", SQL_TOPICS[0]), ("user", SQL_UIDS[0])):
+        for fl in ([0], [1], [0, 1], [1, 0], [2], [0, 2], [2, 0], [0, 0]):
+            link_calls.append({"op": "link", "kind": kind, "topic": tg if kind == "topic" else "", "uid": tg if kind != "topic" else 0, "files": fl})
+    fin_calls = [{"op": "finish", "files": [0], "ok": True}, {"op": "finish", "files": [0], "ok": False}]
+    rc, ans, log = run_sql_driver(ctx, calls + link_calls + fin_calls, "p1")
+    if rc != 0 or len(ans) != len(calls) + len(link_calls) + len(fin_calls) or any(a.get("panic") for a in ans):
+        return fails, [("sql-driver-run", "recording driver failed: rc=%s %s %s" % (rc, [a.get("panic") for a in ans if a.get("panic")][:2], log[-600:]), {})], {}
+    ids = ans[0]["ids"]
+    # decoded ids of the two users: taken from a user-link call's recorded target
+    udec = {}
+    db = SqlDb()
+    select = {}
+    for (o, l), a in zip(combos, ans[1:1 + len(combos)]):
+        q = [s for s in a["stmts"] if s["kind"] == "QUERY"]
+        if len(q) != 1 or a.get("err"):
+            return fails, [("sql-gc-shape", "FileDeleteUnused(%r,%d) sent %d SELECTs, err=%r" % (o, l, len(q), a.get("err")), {"stmts": a["stmts"]})], {}
+        select[(o, l)] = q[0]
+    users_dec = [ids[3] + 1, ids[3] + 2]      # any two database ids for users U0 / U1 of the GC tables
+    tables = sql_tables(ctx, ids)
+    pass2, nsel = [], 0
+    for files, links in tables:
+        links = [(f, k, users_dec[int(tg[1])] if k == "user" else tg) for f, k, tg in links]
+        linked = {f for f, _, _ in links}
+        for (o, l) in combos:
+            db.load(files, links, users_dec)
+            st = select[(o, l)]
+            try:
+                rows = db.c.execute(st["q"], sql_args(st.get("args"))).fetchall()
+            except Exception as e:
+                return fails, [("sql-gc-unsupported", "the GC query of the adapter cannot be evaluated: %s: %s" % (e, st["q"]), {"stmt": st})], {}
+            nsel += 1
+            got = [r[0] for r in rows]
+            cand = [i for i, upd, _, _ in files if i not in linked and (o == "" or upd < o)]
+            case = {"files": files, "links": links, "older": o, "limit": l, "select": st, "selected": got}
+            if len(set(got)) != len(got) or any(g not in cand for g in got):
+                bad = [g for g in got if g in linked]
+                fails.append(("gc-exact", "the adapter's GC query selects %s" % (
+                    "LINKED uploads %s" % bad if bad else "uploads that are not collectable (%s of candidates %s)" % (got, cand)), case))
+            elif len(got) != (len(cand) if l <= 0 else min(l, len(cand))):
+                fails.append(("gc-exact", "the adapter's GC query selects %d of %d collectable uploads with limit %d" % (len(got), len(cand), l), case))
+            pass2.append((files, links, o, l, rows))
+    # second pass: what the adapter does with the selected rows
+    keys = {}
+    for files, links, o, l, rows in pass2:
+        keys.setdefault((o, l, tuple(rows)), None)
+    calls2 = [{"op": "gc", "older": o, "limit": l, "rows": [[str(r[0]), r[1]] for r in rows]} for (o, l, rows) in keys]
+    rc, ans2, log = run_sql_driver(ctx, calls2, "p2")
+    if rc != 0 or len(ans2) != len(calls2):
+        return fails, [("sql-driver-run", "recording driver failed (second pass): rc=%s %s" % (rc, log[-600:]), {})], {}
+    for k, a in zip(list(keys), ans2):
+        keys[k] = a
+    for files, links, o, l, rows in pass2:
+        a = keys[(o, l, tuple(rows))]
+        db.load(files, links, users_dec)
+        _, err = db.run_tx([s for s in a["stmts"] if s["kind"] != "QUERY"])
+        sel = {r[0] for r in rows}
+        case = {"files": files, "links": links, "older": o, "limit": l, "selected": sorted(sel), "stmts": a["stmts"], "returned": a.get("ret")}
+        want_files = sorted(i for i, _, _, _ in files if i not in sel)
+        if err or a.get("err") or a.get("panic"):
+            diffs.append(("sql-gc-delete", "FileDeleteUnused failed after selecting %s: %s %s" % (sorted(sel), err, a.get("err") or a.get("panic")), case))
+        elif db.files() != want_files:
+            fails.append(("gc-exact", "after selecting %s the adapter leaves records %s, expected %s" % (sorted(sel), db.files(), want_files), case))
+        elif sorted(a.get("ret") or []) != sorted(loc for i, _, _, loc in files if i in sel and loc != ""):
+            fails.append(("gc-exact", "locations handed to the media handler %s are not those of the removed records %s" % (a.get("ret"), sorted(sel)), case))
+        elif db.links() != sorted([x for x in links if x[0] not in sel], key=repr):
+            fails.append(("nothing-else-removed", "a GC run changed link rows of uploads it did not remove", case))
+    # links
+    f0, f1, fmiss = ids[0], ids[1], ids[2]
+    nlink = 0
+    for c, a in zip(link_calls, ans[1 + len(combos):1 + len(combos) + len(link_calls)]):
+        kind = c["kind"]
+        tg = c["topic"] if kind == "topic" else (a.get("target") if kind == "user" else c["uid"])
+        other = {"msg": SQL_MSGS[1], "topic": SQL_TOPICS[1], "user": (a.get("target") or 0) + 1}[kind]
+        users = [tg, other] if kind == "user" else [1, 2]
+        listed = [ids[k] for k in c["files"]]
+        for before in ([], [(f1, kind, tg)], [(f0, kind, other), (f1, "msg", SQL_MSGS[1])], [(f0, kind, tg), (f1, kind, other)]):
+            if kind == "msg" and any(b[1] == "msg" and b[2] == tg for b in before):
+                continue          # a message is linked once, when it is saved
+            files = [(f0, T_OLD, 1, "l0"), (f1, T_NEW, 0, "l1")]
+            db.load(files, before, users)
+            _, err = db.run_tx(a["stmts"])
+            nlink += 1
+            after = db.links()
+            use = listed if kind == "msg" else listed[:1]
+            case = {"files": files, "links_before": before, "call": c, "target": tg, "stmts": a["stmts"], "links_after": after, "error": err or a.get("err")}
+            if a.get("err") or a.get("panic"):
+                diffs.append(("sql-link", "FileLinkAttachments(%s) answered %s" % (c, a.get("err") or a.get("panic")), case))
+                continue
+            if fmiss in use:
+                want = sorted(before, key=repr)          # FOREIGN KEY: nothing is linked, nothing is unlinked
+            else:
+                keep = [b for b in before if kind == "msg" or not (b[1] == kind and b[2] == tg)]
+                want = sorted(keep + [(f, kind, tg) for f in use], key=repr)
+            if after == want:
+                continue
+            lost = [b for b in before if b not in after and not (b[1] == kind and b[2] == tg)]
+            missing = [w for w in want if w not in after and w not in before]
+            if lost:
+                fails.append(("linked-while-referenced", "linking to %s %s removed the link rows %s of another message / topic / user" % (kind, tg, lost), case))
+            elif missing and fmiss not in use:
+                fails.append(("linked-while-referenced", "FileLinkAttachments(%s %s, %s) succeeded without the link rows %s" % (kind, tg, listed, missing), case))
+            else:
+                diffs.append(("sql-link", "link rows after FileLinkAttachments(%s %s, %s): %s, store contract of the model: %s" % (kind, tg, listed, after, want), case))
+    # FinishUpload
+    for c, a in zip(fin_calls, ans[1 + len(combos) + len(link_calls):]):
+        files = [(f0, T_OLD, 0, "l0"), (f1, T_OLD, 0, "l1")]
+        links = [(f0, "msg", SQL_MSGS[0])]
+        db.load(files, links, [1, 2])
+        _, err = db.run_tx(a["stmts"])
+        st = dict(db.c.execute("SELECT id,status FROM fileuploads").fetchall())
+        want = {f0: 1, f1: 0} if c["ok"] else {f1: 0}
+        case = {"call": c, "stmts": a["stmts"], "rows_after": st, "links_after": db.links(), "error": err or a.get("err")}
+        if err or a.get("err") or st != want or db.links() != (sorted(links, key=repr) if c["ok"] else []):
+            diffs.append(("sql-finish", "FileFinishUpload(ok=%s) leaves %s / links %s, store contract of the model: %s" % (c["ok"], st, db.links(), want), case))
+    cov = {"tables": len(tables), "gc_selects_evaluated": nsel, "gc_runs_replayed": len(pass2), "distinct_gc_calls_second_pass": len(calls2),
+           "link_cases": nlink, "finish_cases": len(fin_calls), "engine": "sqlite " + __import__("sqlite3").sqlite_version,
+           "gc_queries": sorted({s["q"] for s in select.values()})}
+    return fails, diffs, cov
+
+
 # ---------------------------------------------------------------- running
 def run_impl(ctx, lines, tag="main"):
     fin = os.path.join(ctx.work, tag + "_in.txt")
@@ -731,9 +999,11 @@ def run(ctx):
                       {"correspondence": "build of harness/overlay against /repo"})
         ctx.finish()
     quick = ctx.tier == "quick"
+    sql_only = False
     if ctx.replay:
         rp = json.load(open(ctx.replay))
-        lines = rp["replay"].get("lines") or [rp["replay"]["case"]]
+        sql_only = "sql_case" in rp["replay"]
+        lines = ["USER 1"] if sql_only else (rp["replay"].get("lines") or [rp["replay"]["case"]])
         g = None
     else:
         pure = list(dict.fromkeys(url_cases(ctx) + fa_cases(ctx)))
@@ -759,6 +1029,13 @@ def run(ctx):
         st = [l for l in lines[:i + 1] if l.split()[0] not in ("CL", "ID", "FA")]
         if lines[i].split()[0] == "FA":
             st = ["USER 1", lines[i]]
+        if lines[i].split()[0] in ("UP", "SV"):
+            # a request line depends only on the users and on the uploads its URL template names
+            import re
+            ks = set(re.findall(r"(?:^|\+)[fF](\d+)", kvs(lines[i]).get("url", "")))
+            made = [l for l in lines[:i] if (l.startswith("UP ") and kvs(l).get("fid") in ks) or
+                    (l.startswith("INFLIGHT ") and l.split()[1] in ks)]
+            st = ["USER 1", "USER 2"] + made + [lines[i]]
         # setup (users, fixtures) + the tail; uploads made in the cut part are then unknown ids
         return {"case": lines[i], "lines": st[:60] + st[-3000:] if len(st) > 3060 else st}
 
@@ -792,6 +1069,20 @@ def run(ctx):
         ctx.violation("corr", "correspondence-" + l.split()[0],
                       "model and implementation disagree on %d of %d lines, e.g. %s: impl=%s model=%s; no law failure found on %d neighbouring inputs"
                       % (len(mism), len(lines), l[:300], a, m, searched), rp)
+    # the file / link SQL of the real MySQL adapter (the histories above run on memverif)
+    sql_cov = {}
+    if not ctx.replay or sql_only:
+        sfails, sdiffs, sql_cov = sql_tie(ctx)
+        seen = {}
+        for law, detail, case in sfails:
+            seen[law] = seen.get(law, 0) + 1
+            if seen[law] <= 3:
+                ctx.violation("monitor", law, "law %s fails on the SQL of the real MySQL adapter (executed on sqlite): %s" % (law, detail),
+                              {"case": "SQL " + detail[:200], "sql_case": case, "law": law, "law_text": LAWS.get(law, ""), "failing_cases": seen[law]})
+        if sdiffs and not sfails:
+            key, detail, case = sdiffs[0]
+            ctx.violation("corr", "correspondence-" + key, "the SQL of the real MySQL adapter and the store contract of the model disagree in %d cases, e.g. %s" % (len(sdiffs), detail),
+                          {"case": "SQL " + detail[:200], "sql_case": case, "correspondence": key})
     kinds, outs = {}, {}
     nontrivial = set()
     for l, a in zip(lines, impl):
@@ -811,13 +1102,16 @@ def run(ctx):
                 "four limits, non-form / no-file / empty-file bodies, four media-handler configurations, three injected faults (create / StartUpload / FinishUpload), uploads stopped between StartUpload and FinishUpload and downloads of them by every URL shape, 15 content kinds, every URL shape per fixture; "
                 "%d seeded histories of uploads, publishes with attachment lists, topic and account avatar updates, hard message deletion, topic and user deletion and GC runs "
                 "(DeleteUnused with future / past / zero bound and limits), each followed by a dump of memverif's file and link tables and the directory listing; "
+                "the statements of the real MySQL adapter for GC / linking / FinishUpload executed on sqlite over enumerated tables of up to 3 uploads (old / new, 7 link sets each) x 6 (bound, limit) pairs; "
                 "non-trivial = an id was extracted / a request had an effect / a history operation ran" % (7 if quick else 11, 12 if quick else 400),
-        "samples": [{"case": lines[i][:300], "impl": impl[i][:300]} for i in ([1, 2, 3] + ctx.rng.sample(range(len(lines)), min(6, len(lines))))],
+        "samples": [{"case": lines[i][:300], "impl": impl[i][:300]} for i in ([i for i in (1, 2, 3) if i < len(lines)] + ctx.rng.sample(range(len(lines)), min(6, len(lines))))],
         "traces_validated_against_impl": len(lines), "correspondence_mismatches": len(mism),
         "monitor_failures": len(fails), "search_pool": searched,
         "input_distribution": {"by_request_kind": kinds, "by_outcome": dict(sorted(outs.items(), key=lambda kv: -kv[1])[:60])},
         "laws": LAWS,
+        "mysql_adapter_sql": sql_cov,
         "trusted_base": [
+            "harness/overlay/server/db/mysql/zz_verif_c16_test.go (recording database/sql driver: statement texts and arguments of the REAL MySQL adapter's FileDeleteUnused / FileLinkAttachments / FileFinishUpload) + python sqlite3 as the SQL engine standing in for MySQL for these statements, tables with the foreign keys of adapter.go:526-555 written by hand in tools/props/c16.py; the message / topic / user deletion statements (MySQL multi-table DELETE, ON DELETE CASCADE) are NOT executed",
             "harness/overlay/server/zz_verif_c16_test.go (builds the HTTP requests, observes memverif's tables and the upload directory before/after each request, calls the real handlers; a stub media handler overrides only Headers())",
             "harness/overlay/server/db/memverif (in-memory adapter with the MySQL adapter's file/link semantics: modelled from db/mysql/adapter.go:3171-3396, not verified)",
             "harness/runner/r_c16.ml glue: text of a placement kind -> constructor (valid key / good token / bad signature ...), upload k <-> model id",
